@@ -11,12 +11,23 @@ Import ListNotations.
 (* encode_into_avx2: __m256i, blendv select, testz error test *)
 Definition avx2_params : kparams :=
   {| kp_lanes := 32; kp_strict := gen_avx2_strict; kp_init_km1 := gen_avx2_init_km1;
-     kp_blendv := true; kp_testz := true |}.
+     kp_blendv := true; kp_testz := true; kp_init_zero := false; kp_tail_always := false |}.
 
 (* encode_into_sse2: __m128i, or/andnot/and select, store + any(!= 0) error test *)
 Definition sse2_params : kparams :=
   {| kp_lanes := 16; kp_strict := gen_sse2_strict; kp_init_km1 := gen_sse2_init_km1;
-     kp_blendv := false; kp_testz := false |}.
+     kp_blendv := false; kp_testz := false; kp_init_zero := false; kp_tail_always := false |}.
+
+(* encode_into_neon (arm / aarch64 only): uint8x16x4_t = 64 lanes per iteration, loop
+   `while i + 64 < l`, encoded starts at 0, vbslq_u8(m, index, encoded) = (m & index) | (!m & encoded)
+   (the SSE2 select), unknown = unknown & !m, error test: the OR of the four registers has a
+   non-zero 64-bit half (= some lane non-zero), rescan `for i in 0..l { from_ascii(seq[i])? }`,
+   then the generic tail call without the `if i < l` guard.  Not reachable on x86_64: the text of
+   the kernel is pinned by the translator, nothing is run against it. *)
+Definition neon_params : kparams :=
+  {| kp_lanes := 64; kp_strict := true; kp_init_km1 := false;
+     kp_blendv := false; kp_testz := false; kp_init_zero := true; kp_tail_always := true |}.
+Definition encode_into_neon := encode_into_simd neon_params.
 
 Definition encode_into_avx2 := encode_into_simd avx2_params.
 Definition encode_into_sse2 := encode_into_simd sse2_params.
